@@ -3,6 +3,7 @@ import Qv.Drv.C15
 import Qv.Drv.C11
 import Qv.Drv.C03
 import Qv.Drv.C05
+import Qv.Drv.C09
 /-! Line protocol: `<op> <json>` per line in, one JSON document per line out. -/
 open Lean
 
@@ -12,7 +13,9 @@ def handlers : List (String × (Json → Except String Json)) := [
   ("C15.history", Qv.Drv.C15.history),
   ("C11.prop", Qv.Drv.C11.prop),
   ("C03.overclaims", Qv.Drv.C03.overclaimsJ),
-  ("C05.tree", Qv.Drv.C05.tree)
+  ("C05.tree", Qv.Drv.C05.tree),
+  ("C09.ptrace", Qv.Drv.C09.ptraceJ),
+  ("C09.permute", Qv.Drv.C09.permuteJ)
 ]
 
 def handle (line : String) : String :=
